@@ -155,6 +155,7 @@ def _sites (repo, f):
     if n.kind == 'cond' and isinstance(n.stmt, ast.Assert):
       t = norm(n.ast)
       if t.startswith('isinstance(') or 'assert_type' in t: continue
+      if _assert_cannot_fail(f, g, n): continue
       out.append(Site(f, n, 'assert', 'AssertionError', None, "assert %s" % t[:50])); continue
     srcs = [a] if not isinstance(a, ast.With) else [i.context_expr for i in a.items]
     for s in srcs:
@@ -249,6 +250,88 @@ def _sites (repo, f):
         if verdict == 'undecided': und.append(Site(f, n, 'index', 'IndexError', None, what + ": " + why)); continue
         out.append(Site(f, n, 'index', 'IndexError', None, what + ": " + why))
   return out, und, g
+
+_UMAX = {'B': 255, 'H': 65535, 'I': 2 ** 32 - 1, 'L': 2 ** 32 - 1, 'Q': 2 ** 64 - 1}
+def _value_range (f, e, depth=0):
+  """(lo, hi) of an integer expression made of unsigned struct fields, shifts and masks; None when not of that shape"""
+  if depth > 4: return None
+  if isinstance(e, ast.Constant) and isinstance(e.value, int) and not isinstance(e.value, bool): return (e.value, e.value)
+  if isinstance(e, ast.BinOp) and isinstance(e.op, ast.RShift):
+    a = _value_range(f, e.left, depth + 1); b = _value_range(f, e.right, depth + 1)
+    if a and b and b[0] == b[1] and a[0] >= 0 and b[0] >= 0: return (a[0] >> b[0], a[1] >> b[0])
+    return None
+  if isinstance(e, ast.BinOp) and isinstance(e.op, ast.BitAnd):
+    a = _value_range(f, e.left, depth + 1); b = _value_range(f, e.right, depth + 1)
+    for x, y in ((a, b), (b, a)):
+      if y and y[0] == y[1] and y[0] >= 0: return (0, min(x[1], y[0]) if x and x[0] >= 0 else y[0])
+    return None
+  if isinstance(e, ast.Subscript) and isinstance(e.slice, ast.Constant) and isinstance(e.slice.value, int) and isinstance(e.value, ast.Call) and call_name(e.value) in ('unpack', 'unpack_from') \
+     and e.value.args and isinstance(e.value.args[0], ast.Constant) and isinstance(e.value.args[0].value, str):
+    import re as _re
+    codes = []
+    for cnt_, ch_ in _re.findall(r'(\d*)([a-zA-Z?])', e.value.args[0].value.lstrip('@=<>!')):
+      codes += [ch_] if ch_ in 'sp' else ([] if ch_ == 'x' else [ch_] * (int(cnt_) if cnt_ else 1))
+    if 0 <= e.slice.value < len(codes) and codes[e.slice.value] in _UMAX: return (0, _UMAX[codes[e.slice.value]])
+    return None
+  if isinstance(e, ast.BinOp) and isinstance(e.op, ast.Sub):
+    # a - b >= 0 when a dominating fact is not needed: only the trivial len(x) - const form is left to the guard rule
+    return None
+  if isinstance(e, (ast.Name, ast.Attribute)):
+    key = norm(e)
+    defs_ = [(t_, v_, st_, k_) for t_, v_, st_, k_ in q.stores_in(f.node, nested=False) if norm(t_) == key]
+    if not defs_ or (isinstance(e, ast.Attribute) and norm(e.value) != 'self'): return None
+    lo = hi = None
+    for t_, v_, st_, k_ in defs_:
+      if k_ != 'assign' or v_ is None: return None
+      tgt = st_.targets[0] if isinstance(st_, ast.Assign) else None
+      r = None
+      if isinstance(tgt, (ast.Tuple, ast.List)) and isinstance(v_, ast.Call) and call_name(v_) in ('unpack', 'unpack_from') and v_.args and isinstance(v_.args[0], ast.Constant) and isinstance(v_.args[0].value, str):
+        import re as _re
+        codes = []
+        for cnt_, ch_ in _re.findall(r'(\d*)([a-zA-Z?])', v_.args[0].value.lstrip('@=<>!')):
+          codes += [ch_] if ch_ in 'sp' else ([] if ch_ == 'x' else [ch_] * (int(cnt_) if cnt_ else 1))
+        idx = [i_ for i_, x_ in enumerate(tgt.elts) if norm(x_) == key]
+        if idx and len(codes) == len(tgt.elts) and codes[idx[0]] in _UMAX: r = (0, _UMAX[codes[idx[0]]])
+      elif isinstance(tgt, (ast.Name, ast.Attribute)):
+        r = _value_range(f, v_, depth + 1)
+      if r is None: return None
+      lo = r[0] if lo is None else min(lo, r[0]); hi = r[1] if hi is None else max(hi, r[1])
+    return (lo, hi)
+  return None
+
+def _assert_cannot_fail (f, g, n):
+  """an assertion that restates what is already known at that point: a dominating guard implies it, or it bounds an unsigned struct
+  field / a shift or mask of one by its type's range"""
+  t = n.ast
+  if not (isinstance(t, ast.Compare) and len(t.ops) == 1): return False
+  op = {ast.Lt: '<', ast.LtE: '<=', ast.Gt: '>', ast.GtE: '>=', ast.Eq: '=='}.get(type(t.ops[0]))
+  if op is None: return False
+  l, r = t.left, t.comparators[0]
+  al = {}
+  def canon (e):      # ClassName.MIN_LEN and self.MIN_LEN name the same constant inside the class
+    tx = norm(e)
+    return tx
+  def subst (e):      # a value stored just before: self.payload_len = frame_len - min_len
+    if isinstance(e, (ast.Name, ast.Attribute)):
+      ds_ = [v_ for t_, v_, st_, k_ in q.stores_in(f.node, nested=False) if norm(t_) == norm(e) and k_ == 'assign' and v_ is not None]
+      if len(ds_) == 1 and isinstance(ds_[0], ast.BinOp) and q.lin_terms(ds_[0]) is not None: return ds_[0]
+    return e
+  target = q.fact_as_ge0(subst(l), op, subst(r))
+  if target is not None:
+    tks = dict((k.replace('self.', '').split('.')[-1] if k.endswith('MIN_LEN') else k, v) for k, v in target[0].items())
+    for (fl, fo, fr, fb) in q.guard_facts(g, n, exc=False):
+      if fr is None: continue
+      ff = q.fact_as_ge0(fl, fo, fr)
+      if ff is None: continue
+      fks = dict((k.replace('self.', '').split('.')[-1] if k.endswith('MIN_LEN') else k, v) for k, v in ff[0].items())
+      if fks == tks and target[1] >= ff[1]: return True
+  ra, rb = _value_range(f, l), _value_range(f, r)
+  if ra and rb:
+    if op == '<=': return ra[1] <= rb[0]
+    if op == '<': return ra[1] < rb[0]
+    if op == '>=': return ra[0] >= rb[1]
+    if op == '>': return ra[0] > rb[1]
+  return False
 
 def run (ctx):
   ctx.explanation = EXPLAIN
